@@ -31,6 +31,16 @@ Fixpoint nequiv (a b : node) : bool :=
   | _, _ => false
   end.
 
+(* every config of the case is a JSON object with unique keys (hypothesis json_ok of the selection-rule theorem) *)
+Definition entry_json_ok (x : input) : bool :=
+  (match i_entry x with
+   | EObject c => json_ok (CObj c)
+   | EString c => json_ok (CObj c)
+   | EEnv m => json_ok (CObj m)
+   | EArgs _ => true
+   end)
+  && match i_env x with Some e => json_ok (CObj e) | None => true end.
+
 (* fx = the tree the implementation under test is (Model/C17Subcmd.v `variant`): the guard of a
    finding exists only while its fix is not in the tree *)
 Definition guard_class (fx : variant) (c : case) : N :=
@@ -45,6 +55,7 @@ Definition judge1_v (fx : variant) (c : case) : verdict :=
   let p := c_parser c in
   let fuel := fuel_of p in
   {| v_model := wf_b fuel p     (* the case satisfies the hypothesis wf of the theorems *)
+                && entry_json_ok (c_input c)   (* ... and json_ok of C17_config_entry_selection_rule *)
                 && match parse fx fuel p (c_input c), c_obs c with
                    | Ok m, Some o => nequiv (strip (NNs m)) (NNs o)
                    | Err OutOfFuel, _ => false
